@@ -219,41 +219,73 @@ def open_order(rnd):
     return out
 
 
+SHARED = "import pytest\n\n@pytest.fixture\ndef shared_a():\n    return 1\n\n\n@pytest.fixture(scope=\"session\")\ndef shared_b(shared_a):\n    return 2\n"
+
+
 def part2(r, rnd, n, per_doc):
+    """-> info, codes.  Every workspace is one server; a third of them are RE-EXPORT
+    workspaces: a conftest.py without fixtures of its own that star-imports a module, then
+    loses the import, then gets it back (the offered set must follow each edit)."""
     import lsp
     binp = core.build_binary()
     terms, info = [], {}
+    cid = [0]
+
+    def query(srv, p, text, lines):
+        ls = doc_lines(text)
+        items, raw = [], {}
+        for ln in lines:
+            res = srv.completion(p, ln, len(ls[ln].rstrip("\r")))
+            if isinstance(res, dict):
+                res = res.get("items")
+            its = [(x["label"], x.get("sortText") or "") for x in (res or [])]
+            raw[ln] = its
+            items.append("(%d, %s)" % (ln, L.clist(["(%s, %s)" % (L.cstr(a), L.cstr(b)) for a, b in its])))
+        return items, raw
+
+    def emit(w, steps, vp, text, items, raw, docs, tags):
+        k = cid[0]
+        cid[0] += 1
+        terms.append((k, "(mk_c18i %s %s %s %s %s)" % (L.clist(steps), L.cpath(vp), py2coq.ctext(text), py2coq.clayout(text), L.clist(items))))
+        info[k] = {"docs": docs, "tags": tags, "items": raw, "workspace": w}
+
     for w in range(n):
-        # one server per workspace: third-party fixtures are visible from everywhere
         base = tempfile.mkdtemp(prefix="verif_c18_")
         try:
             srv = lsp.Server(binp, root=base, timeout=40)
             try:
                 srv.wait_for_log("Workspace scan complete", timeout=30)
-                docs = open_order(rnd)
-                steps = []
-                for k, (rel, text, tags) in enumerate(docs):
-                    p = os.path.join(base, rel)
-                    srv.open(p, text)
+                reexport = (w % 3 == 2)
+                if reexport:
+                    tt, ttags = gen_doc(rnd)
+                    docs = [("shared_fx.py", SHARED, []), ("conftest.py", "from .shared_fx import *\n", []), ("test_target.py", tt, ttags + ["reexport"])]
+                else:
+                    docs = open_order(rnd)
+                steps, tid = [], [0]
+
+                def analyse(rel, text):
+                    tid[0] += 1
                     vp = "/vw%d/%s" % (w, rel.replace(".venv/lib/python3.11/site-packages", "site-packages"))
-                    steps.append("Op (OAnalyze true %s (facts_of %d %s %s))" % (L.cpath(vp), k + 1, py2coq.ctext(text), py2coq.cmodule(text)))
+                    steps.append("Op (OAnalyze true %s (facts_of %d %s %s))" % (L.cpath(vp), tid[0], py2coq.ctext(text), py2coq.cmodule(text)))
+                for (rel, text, tags) in docs:
+                    srv.open(os.path.join(base, rel), text)
+                    analyse(rel, text)
                 rel, text, tags = docs[-1]
                 p = os.path.join(base, rel)
-                ls = doc_lines(text)
-                idx = list(range(len(ls)))
+                idx = list(range(len(doc_lines(text))))
                 rnd.shuffle(idx)
-                items = []
-                raw = {}
-                for ln in sorted(idx[:per_doc]):
-                    res = srv.completion(p, ln, len(ls[ln].rstrip("\r")))
-                    if isinstance(res, dict):
-                        res = res.get("items")
-                    its = [(x["label"], x.get("sortText") or "") for x in (res or [])]
-                    raw[ln] = its
-                    items.append("(%d, %s)" % (ln, L.clist(["(%s, %s)" % (L.cstr(a), L.cstr(b)) for a, b in its])))
-                vp = "/vw%d/%s" % (w, rel)
-                terms.append((w, "(mk_c18i %s %s %s %s %s)" % (L.clist(steps), L.cpath(vp), py2coq.ctext(text), py2coq.clayout(text), L.clist(items))))
-                info[w] = {"docs": [(a, b) for a, b, _ in docs], "tags": [t for _, _, tg in docs for t in tg], "items": raw}
+                lines = sorted(idx[:per_doc])
+                alltags = [t for _, _, tg in docs for t in tg]
+                items, raw = query(srv, p, text, lines)
+                emit(w, list(steps), "/vw%d/%s" % (w, rel), text, items, raw, [(a, b) for a, b, _ in docs], alltags)
+                if reexport:
+                    cp = os.path.join(base, "conftest.py")
+                    for ver, ctext_ in enumerate(["import os\n", "from .shared_fx import *\n", "from .shared_fx import shared_b\n"]):
+                        srv.change(cp, ctext_, ver + 2)
+                        analyse("conftest.py", ctext_)
+                        items, raw = query(srv, p, text, lines[: max(3, per_doc // 2)])
+                        emit(w, list(steps), "/vw%d/%s" % (w, rel), text, items, raw,
+                             [(a, b) for a, b, _ in docs] + [("conftest.py (edit %d)" % (ver + 1), ctext_)], alltags + ["reexport:edit%d" % (ver + 1)])
             finally:
                 try:
                     srv.shutdown()
@@ -350,7 +382,7 @@ def run(r):
         "checker_cmd": "make -C coq theories/Properties/%s.vo (coqc 8.16.1, full .vo build) + Print Assumptions + hygiene grep" % PID,
         "trusted_base": runner.trusted_base(),
         "evaluations": nlines + nreq, "distinct_nontrivial": len(distinct), "rule": RULE,
-        "documents": len(info1), "cursor_lines": nlines, "answers_by_kind": dict(kinds), "completion_requests": nreq, "workspaces": len(info2),
+        "documents": len(info1), "cursor_lines": nlines, "answers_by_kind": dict(kinds), "completion_requests": nreq, "workspaces": len(set(x["workspace"] for x in info2.values())), "item_cases": len(info2),
         "non_empty_item_lists": sum(1 for x in info2.values() for its in x["items"].values() if its),
         "known_class_hits": dict(hits), "correspondence_failures": len(corr_bad) + len(corr2), "input_distribution": dict(tags),
         "proof": {k: v for k, v in r.proof.items() if k != "cone"},
